@@ -183,8 +183,13 @@ def run(spec):
             is_boxed = bool(np.all(np.isfinite(lb)) and np.all(np.isfinite(ub)))
             del log[:]
             where = f"{fam} n={n} mode={mode} iter={above} cap={cap} tol=({ftol},{gtol},{xtol})"
+            ipr, lgr = -1, None
+            if rng.random() < 0.3:
+                ipr = int(gen.pick(rng, [0, 1, 99, 100, 101]))
+                lgr = probes.CapturingLogger().logger
+                out.count("calls_with_logging")
             try:
-                ret = line_search(x0.copy(), f0, g0.copy(), d.copy(), lb, ub, above, max_user, is_boxed, sf, ftol, gtol, xtol, cap, -1, None)
+                ret = line_search(x0.copy(), f0, g0.copy(), d.copy(), lb, ub, above, max_user, is_boxed, sf, ftol, gtol, xtol, cap, ipr, lgr)
             except Exception as e:
                 out.violate("line_search_raised", f"{where}: {e!r}; x0={x0.tolist()} d={d.tolist()} lb={lb.tolist()} ub={ub.tolist()}", family=fam)
                 break
